@@ -1,6 +1,6 @@
 (** C04 — exclusive gateway routes each token to exactly one deterministic branch.
     Model: Model/XorGw.v (non-default list, token-side probe, gateway-side decision, probe protocol). *)
-From BV Require Import Model.XorGw Proofs.XorGwProofs Gen.Facts.
+From BV Require Import Model.XorGw Proofs.XorGwProofs Model.Wiring Proofs.WiringProofs Gen.Facts.
 
 (* A non-default flow is chosen only if it is the FIRST flow in the gateway's list order
    (default excluded) whose condition is true. *)
@@ -63,6 +63,19 @@ Theorem C04_independent_refuted_with_a_coarse_key :
   snd (run [0; 1] None empty [Ask 1; Ask 2; Report 1 [1]]) = [OProbe 1; OProbe 2; ORequeue 1 [1]].
 Proof. exact refuted_coarse_key. Qed.
 Print Assumptions C04_independent_refuted_with_a_coarse_key.
+
+(* "IN LIST ORDER" MEANS THE NODE'S OWN ORDER (Model/Wiring.v): a gateway's flows are the flows its <outgoing> references
+   name, in the order of those references, whatever the order in which the <sequenceFlow> elements are declared -- the
+   variant the sources show (src_flows_in_reference_order, read off flow_wiring.go sequenceFlows) ... *)
+Theorem C04_flows_come_in_the_listed_order : forall refs decl l,
+  resolve src_flows_in_reference_order refs decl = Some l -> l = refs.
+Proof. exact listed_order_kept. Qed.
+Print Assumptions C04_flows_come_in_the_listed_order.
+(* ... collected while walking the declarations they come in the declarations' order *)
+Theorem C04_listed_order_refuted_when_collected_in_declaration_order :
+  resolve false [2; 1] [1; 2] = Some [1; 2] /\ resolve true [2; 1] [1; 2] = Some [2; 1].
+Proof. exact refuted_declaration_order. Qed.
+Print Assumptions C04_listed_order_refuted_when_collected_in_declaration_order.
 
 Example C04_nonvacuous :
   xor_choose [false; true; true; true] (Some 1) = Flow 2 /\
